@@ -65,6 +65,10 @@ def draw_case(data, tier):
     elif block == "LayerNorm":
         for s in sig:
             s[1] = data.draw(st.integers(1, 6), label="chan")
+    if block in ("GroupNorm", "LayerNorm") and d == 2 and data.draw(st.integers(0, 11), label="many_samples") == 0:
+        # more than 16384 samples per normalisation group (anything that subsamples or chunks the statistics shows here)
+        shape = [32, 32]
+        sig = [[[1, data.draw(st.integers(0, 1), label="p_big")], 16 * groups]]
     inp = "generic"
     if block in ("GroupNorm", "LayerNorm", "VN"):
         inp = data.draw(st.sampled_from(["generic", "generic", "generic", "sparse", "constant", "zero"]), label="input_class")
@@ -142,6 +146,8 @@ def run_case(case):
     pooling = name in ("MaxNormPool", "max_pool", "average_pool", "mi_average_pool", "unpool")
     exact = name in ("average_pool", "mi_average_pool", "unpool")
     labels = ["block_" + name, f"d{d}", "input_" + case["input"], f"patch{patch}"] + [f"type{t[0]}{t[1]}" for t, _ in sig]
+    if int(np.prod(shape)) * max(c for _, c in sig) >= 16384:
+        labels.append("many_samples")
     if name == "GroupNorm":
         labels.append(f"groups{case['groups']}")
     key = [name, d, shape, case["sig"], case["groups"], patch, case["input"], case["act"] if name == "VN" else None]
